@@ -303,12 +303,21 @@ func c15(c *core.Ctx) {
 					rng = r
 				}
 			})
-			if rng == nil {
+			condFn := fn
+			if rng == nil && name != "ForEach" {
+				// iterating through the registry's own ForEach (checked above) with a literal as the body
+				if bodies := iterationBodies(p, reg, fn); len(bodies) == 1 {
+					condFn = bodies[0]
+				} else {
+					c.Fail(key, fn.Pos(), "does not range over the receiver map")
+					continue
+				}
+			} else if rng == nil {
 				c.Fail(key, fn.Pos(), "does not range over the receiver map")
 				continue
 			}
 			bad := ""
-			core.Instrs(fn, func(in ssa.Instruction) {
+			core.Instrs(condFn, func(in ssa.Instruction) {
 				iff, ok := in.(*ssa.If)
 				if !ok {
 					return
@@ -656,13 +665,17 @@ func c15ServiceInfo(c *core.Ctx, reg *types.Named) {
 	c.Check(okSvc, key+":service-entry", decl.Pos(), "ServiceInfo populates every field of grpc.ServiceInfo (Methods, Metadata←desc.Metadata)", fmt.Sprintf("grpc.ServiceInfo fields %v are not all populated (found %v)", fieldsOf("ServiceInfo"), slit))
 	// keyed by ServiceName: the MapUpdate key in SSA
 	okKey := false
-	core.Instrs(fn, func(in ssa.Instruction) {
-		if mu, ok := in.(*ssa.MapUpdate); ok {
-			if _, f, ok := core.FieldOf(mu.Key); ok && f == "ServiceName" {
-				okKey = true
+	bodies := append([]*ssa.Function{fn}, iterationBodies(p, reg, fn)...)
+	for _, bf := range bodies {
+		core.Instrs(bf, func(in ssa.Instruction) {
+			if mu, ok := in.(*ssa.MapUpdate); ok {
+				if _, f, ok := core.FieldOf(mu.Key); ok && f == "ServiceName" {
+					okKey = true
+				}
 			}
-		}
-	})
+		})
+	}
+	fnsAll = append(fnsAll, bodies[1:]...)
 	c.Check(okKey, key+":keyed-by-service-name", decl.Pos(), "result keyed by desc.ServiceName", "the result map is not keyed by desc.ServiceName")
 	// the appended slice is the one stored
 	okAppend := 0
@@ -702,84 +715,113 @@ func c15MethodListFresh(c *core.Ctx, reg *types.Named) {
 		}
 	})
 	n := 0
-	core.Instrs(fn, func(in ssa.Instruction) {
-		st, ok := in.(*ssa.Store)
-		if !ok {
-			return
-		}
-		_, f, isF := core.FieldOf(st.Addr)
-		if !isF || f != "Methods" {
-			return
-		}
-		n++
-		bad, undec := "", ""
-		inHelper := false
-		seen := map[ssa.Value]bool{}
-		var walk func(v ssa.Value)
-		walk = func(v ssa.Value) {
-			if seen[v] || bad != "" {
+	bodyFns := append([]*ssa.Function{fn}, iterationBodies(p, reg, fn)...)
+	for _, bf := range bodyFns {
+		bf := bf
+		core.Instrs(bf, func(in ssa.Instruction) {
+			st, ok := in.(*ssa.Store)
+			if !ok {
 				return
 			}
-			seen[v] = true
-			switch x := v.(type) {
-			case *ssa.Call:
-				if b, isB := x.Call.Value.(*ssa.Builtin); isB && b.Name() == "append" {
-					walk(x.Call.Args[0])
-					return
-				}
-				// built by a helper of the package: every return of the helper must be a list made in the helper
-				// (a fresh allocation per call)
-				if callee := x.Call.StaticCallee(); callee != nil && callee.Blocks != nil && callee.Pkg == fn.Pkg && callee != fn && !inHelper {
-					inHelper = true
-					for _, r := range core.Returns(callee) {
-						walk(r.Results[0])
-					}
-					inHelper = false
-					return
-				}
-				undec = "the list is the result of " + core.InfoOf(&x.Call).Full()
-			case *ssa.Phi:
-				if mapLoopHeader[x.Block()] {
-					bad = "the list's backing slice is carried from one service's iteration to the next"
-					return
-				}
-				for _, e := range x.Edges {
-					walk(e)
-				}
-			case *ssa.Slice:
-				bad = "the list is a re-slice of an existing slice (a scratch buffer reused across services)"
-			case *ssa.MakeSlice:
-				if !inHelper && core.LoopOf(fn)[x.Block()] < 0 {
-					bad = "the list's backing array is allocated once, outside the service loop"
-				}
-			case *ssa.Const:
-				if !x.IsNil() {
-					undec = "constant"
-				}
-			case *ssa.UnOp:
-				os := core.Origins(x)
-				if len(os) == 1 && os[0] == ssa.Value(x) {
-					undec = "a load the checker cannot resolve"
-					return
-				}
-				for _, o := range os {
-					walk(o)
-				}
-			default:
-				undec = fmt.Sprintf("%T", v)
+			_, f, isF := core.FieldOf(st.Addr)
+			if !isF || f != "Methods" {
+				return
 			}
-		}
-		walk(st.Val)
-		switch {
-		case bad != "":
-			c.Fail(key, st.Pos(), "%s: the Methods lists of different services share memory, so a service reports another service's methods (grpc.Server builds one list per service)", bad)
-		case undec != "":
-			c.Undecided(key, st.Pos(), "cannot trace where the Methods slice comes from (%s)", undec)
-		default:
-			c.Ok(key, st.Pos(), "the Methods slice is built by appends on a slice made inside the service loop")
-		}
-	})
+			n++
+			bad, undec := "", ""
+			inHelper := false
+			seen := map[ssa.Value]bool{}
+			var walk func(v ssa.Value)
+			walk = func(v ssa.Value) {
+				if seen[v] || bad != "" {
+					return
+				}
+				seen[v] = true
+				switch x := v.(type) {
+				case *ssa.Call:
+					if b, isB := x.Call.Value.(*ssa.Builtin); isB && b.Name() == "append" {
+						walk(x.Call.Args[0])
+						return
+					}
+					// built by a helper of the package: every return of the helper must be a list made in the helper
+					// (a fresh allocation per call)
+					if callee := x.Call.StaticCallee(); callee != nil && callee.Blocks != nil && callee.Pkg == fn.Pkg && callee != fn && !inHelper {
+						inHelper = true
+						for _, r := range core.Returns(callee) {
+							walk(r.Results[0])
+						}
+						inHelper = false
+						return
+					}
+					undec = "the list is the result of " + core.InfoOf(&x.Call).Full()
+				case *ssa.Phi:
+					if mapLoopHeader[x.Block()] {
+						bad = "the list's backing slice is carried from one service's iteration to the next"
+						return
+					}
+					for _, e := range x.Edges {
+						walk(e)
+					}
+				case *ssa.Slice:
+					bad = "the list is a re-slice of an existing slice (a scratch buffer reused across services)"
+				case *ssa.MakeSlice:
+					// inside the iteration: in the service loop of fn, or anywhere in a ForEach body literal (one call per service)
+					if !inHelper && x.Parent() == fn && core.LoopOf(fn)[x.Block()] < 0 {
+						bad = "the list's backing array is allocated once, outside the service loop"
+					}
+				case *ssa.FreeVar:
+					bad = "the list is a variable of the enclosing function, shared by all iterations"
+				case *ssa.Const:
+					if !x.IsNil() {
+						undec = "constant"
+					}
+				case *ssa.UnOp:
+					os := core.Origins(x)
+					if len(os) == 1 && os[0] == ssa.Value(x) {
+						undec = "a load the checker cannot resolve"
+						return
+					}
+					for _, o := range os {
+						walk(o)
+					}
+				default:
+					undec = fmt.Sprintf("%T", v)
+				}
+			}
+			walk(st.Val)
+			switch {
+			case bad != "":
+				c.Fail(key, st.Pos(), "%s: the Methods lists of different services share memory, so a service reports another service's methods (grpc.Server builds one list per service)", bad)
+			case undec != "":
+				c.Undecided(key, st.Pos(), "cannot trace where the Methods slice comes from (%s)", undec)
+			default:
+				c.Ok(key, st.Pos(), "the Methods slice is built by appends on a slice made inside the service loop")
+			}
+		})
+	}
 	if n == 0 {
 		c.Fail(key, fn.Pos(), "ANCHOR-MISSING: no store to a Methods field in GetServiceInfo")
 	}
+}
+
+// iterationBodies: the function literals that fn (a method of the registry)
+// hands to the registry's own ForEach: the body of "for each registration" when
+// the method iterates through ForEach instead of ranging over the map itself.
+func iterationBodies(p *core.Prog, reg *types.Named, fn *ssa.Function) []*ssa.Function {
+	var out []*ssa.Function
+	fe := declaredMethod(p, reg, "ForEach")
+	if fe == nil || fn == nil {
+		return nil
+	}
+	for _, call := range core.CallsIn(fn, func(call *ssa.Call, ci core.CallInfo) bool { return ci.Static == fe }) {
+		if len(call.Call.Args) < 2 || core.Strip(call.Call.Args[0]) != ssa.Value(fn.Params[0]) {
+			continue
+		}
+		for _, o := range core.Origins(call.Call.Args[1]) {
+			if mc, ok := o.(*ssa.MakeClosure); ok {
+				out = append(out, mc.Fn.(*ssa.Function))
+			}
+		}
+	}
+	return out
 }
